@@ -37,12 +37,12 @@ MANIFEST = dict(
          "spelling is such a literal for the number itself; a radix outside 2..36 is an error, never a panic; the printed "
          "form of a finite double always reaches the float parser. Finite doubles round-trip in radix 10 RELATIVE TO two "
          "statements about the executable specification of std's shortest formatting / correctly rounded parsing that are "
-         "kept OPEN (checked in-kernel on 160 doubles and against the real std on every run). Tied to /repo by a 3-way "
+         "kept OPEN (checked in-kernel on 160 doubles and against the real std on every run); float spellings are one Number token given a third such statement. Tied to /repo by a 3-way "
          "differential (impl / extracted model / vm_compute) over palettes x radices.",
     design="DESIGN.md section 5 C16",
-    note="OPEN (stated as Definitions in Props/C16.v, hypotheses of C16_float_roundtrip): C16_std_roundtrip_stmt "
-         "(dec2flt (display x) = x on the std specification) and C16_display_point_stmt; the float-literal one-token lemma "
-         "is not attempted. Trusted: Coq kernel, the hand-written model (sampling correspondence), std's float formatting "
+    note="OPEN (stated as Definitions in Props/C16.v, hypotheses of C16_float_roundtrip / C16_float_literal): "
+         "C16_std_roundtrip_stmt (dec2flt (display x) = x on the std specification), C16_display_point_stmt and "
+         "C16_no_inner_minus_stmt; each is decidable per double and checked in-kernel on 160 doubles. Trusted: Coq kernel, the hand-written model (sampling correspondence), std's float formatting "
          "and parsing (specified, not verified: Model/F64Fmt.v is the function Grisu/Dragon and dec2flt are specified to "
          "compute), num-bigint as Z, extraction+OCaml driver (cross-checked in-kernel), Rust harness, Python oracle. "
          "Axioms: the standard library real-number axioms (sig_forall_dec, sig_not_dec, functional_extensionality_dep, "
